@@ -22,9 +22,10 @@ pub fn validate(server_name: &str) -> Result<(), Error> {
         #[allow(clippy::unnecessary_lazy_evaluations)]
         let end_of_host = server_name.find(':').unwrap_or_else(|| server_name.len());
 
-        if server_name[..end_of_host]
-            .bytes()
-            .any(|byte| !(byte.is_ascii_alphanumeric() || byte == b'-' || byte == b'.'))
+        if end_of_host == 0
+            || server_name[..end_of_host]
+                .bytes()
+                .any(|byte| !(byte.is_ascii_alphanumeric() || byte == b'-' || byte == b'.'))
         {
             return Err(Error::InvalidServerName);
         }
@@ -37,11 +38,18 @@ pub fn validate(server_name: &str) -> Result<(), Error> {
             // hostname is followed by something other than ":port"
             server_name.as_bytes()[end_of_host] != b':'
             // the remaining characters after ':' are not a valid port
-            || server_name[end_of_host + 1..].parse::<u16>().is_err()
+            || !is_valid_port(&server_name[end_of_host + 1..])
         )
     {
         Err(Error::InvalidServerName)
     } else {
         Ok(())
     }
+}
+
+/// Whether the string is a valid port: 1 to 5 ASCII digits whose value fits in a `u16`.
+fn is_valid_port(port: &str) -> bool {
+    (1..=5).contains(&port.len())
+        && port.bytes().all(|byte| byte.is_ascii_digit())
+        && port.parse::<u16>().is_ok()
 }
